@@ -1434,7 +1434,7 @@ class DiskRefsContainer(RefsContainer):
         ensure_dir_exists(os.path.dirname(filename))
         _remove_empty_dirs(filename)
         with GitFile(filename, "wb") as f:
-            if os.path.exists(filename) or name in self.get_packed_refs():
+            if os.path.exists(filename) or realname in self.get_packed_refs():
                 f.abort()
                 return False
             try:
